@@ -204,6 +204,20 @@ fn eq_point(c: &EqCase, obs: &mut Obs) -> PropResult {
             (a == b, a == y, b == a)
         });
         ensure!(eq && eq_sym, "{}({}) != {}({}) although they differ by {} whole turns (f64)", HNAMES[k], x, HNAMES[k], y, c.turns);
+        // the approximate comparisons (approx traits) are comparisons too: equal under whole turns, in both orders, and
+        // the negated forms are their negations
+        let appr = by_hue!(k, H => {
+            use approx::{AbsDiffEq, RelativeEq, UlpsEq};
+            let a = H::<f64>::from_degrees(x);
+            let b = H::<f64>::from_degrees(y);
+            [a.abs_diff_eq(&b, <H<f64> as AbsDiffEq>::default_epsilon()), b.abs_diff_eq(&a, <H<f64> as AbsDiffEq>::default_epsilon()), !a.abs_diff_ne(&b, <H<f64> as AbsDiffEq>::default_epsilon()),
+             a.relative_eq(&b, <H<f64> as AbsDiffEq>::default_epsilon(), <H<f64> as RelativeEq>::default_max_relative()), b.relative_eq(&a, <H<f64> as AbsDiffEq>::default_epsilon(), <H<f64> as RelativeEq>::default_max_relative()), !a.relative_ne(&b, <H<f64> as AbsDiffEq>::default_epsilon(), <H<f64> as RelativeEq>::default_max_relative()),
+             a.ulps_eq(&b, <H<f64> as AbsDiffEq>::default_epsilon(), <H<f64> as UlpsEq>::default_max_ulps()), b.ulps_eq(&a, <H<f64> as AbsDiffEq>::default_epsilon(), <H<f64> as UlpsEq>::default_max_ulps()), !a.ulps_ne(&b, <H<f64> as AbsDiffEq>::default_epsilon(), <H<f64> as UlpsEq>::default_max_ulps())]
+        });
+        const FORMS: [&str; 9] = ["abs_diff_eq(a, b)", "abs_diff_eq(b, a)", "!abs_diff_ne(a, b)", "relative_eq(a, b)", "relative_eq(b, a)", "!relative_ne(a, b)", "ulps_eq(a, b)", "ulps_eq(b, a)", "!ulps_ne(a, b)"];
+        for (i, ok) in appr.iter().enumerate() {
+            ensure!(*ok, "{}: {} is false for a = {} and b = {}, which differ by {} whole turns (f64)", HNAMES[k], FORMS[i], x, y, c.turns);
+        }
         ensure!(eq_raw, "{}({}) != raw angle {} although they differ by {} whole turns (f64, PartialEq<T>)", HNAMES[k], x, y, c.turns);
     }
     let xf = x as f32;
@@ -241,6 +255,16 @@ fn neq_point(c: &NeqCase, obs: &mut Obs) -> PropResult {
         obs.class(if d < 1e-6 { "close-but-distinct" } else { "distinct" });
         let eq = by_hue!(k, H => H::<f64>::from_degrees(x) == H::<f64>::from_degrees(y));
         ensure!(!eq, "{}({:e}) == {}({:e}) although residues differ by {:e}", HNAMES[k], x, HNAMES[k], y, d);
+        if d > 1e-3 {
+            let appr = by_hue!(k, H => {
+                use approx::{AbsDiffEq, RelativeEq, UlpsEq};
+                let a = H::<f64>::from_degrees(x);
+                let b = H::<f64>::from_degrees(y);
+                let e = <H<f64> as AbsDiffEq>::default_epsilon();
+                [a.abs_diff_eq(&b, e), b.abs_diff_eq(&a, e), !a.abs_diff_ne(&b, e), a.relative_eq(&b, e, <H<f64> as RelativeEq>::default_max_relative()), !a.relative_ne(&b, e, <H<f64> as RelativeEq>::default_max_relative()), a.ulps_eq(&b, e, 4), b.ulps_eq(&a, e, 4), !a.ulps_ne(&b, e, 4)]
+            });
+            ensure!(appr.iter().all(|t| !*t), "{}: an approximate comparison holds ({:?}: abs_diff_eq both orders, !abs_diff_ne, relative_eq, !relative_ne, ulps_eq both orders, !ulps_ne) for {:e} and {:e}, whose residues differ by {:e} deg", HNAMES[k], appr, x, y, d);
+        }
     } else {
         obs.class("within-rounding");
     }
